@@ -53,7 +53,7 @@ def run(ctx):
     P = ctx.prog
     ctx.explanation, ctx.not_decided = EXPLANATION, NOT_DECIDED
     W = writers(P)
-    ctx.floor('C08.P1', 'functions with a RocksDB write primitive', len(W), 7)
+    ctx.floor('C08.P1', 'functions with a RocksDB write primitive', len(W), 4)  # non-vacuity floor (6 on b5706de: two single puts were folded into batches by F45 / F48)
     for f, sites in sorted(W.items()):
         b = sites[0][0]
         ctx.ob('C08.P1', f, 'durable write primitive lives in storage.rs', b.file == 'src/storage.rs' and (f.startswith('Storage::') or f.startswith('Batch::')),
